@@ -97,18 +97,14 @@ __CPROVER_requires(OVNI_TH_WF_LIGHT(OTH(emu)) && __CPROVER_is_fresh(OTH(emu)->m.
 __CPROVER_requires(emu->ev->c != 'B')
 __CPROVER_requires(emu->thread->cpu == NULL || __CPROVER_is_fresh(emu->thread->cpu, sizeof(struct cpu)))
 __CPROVER_requires(__CPROVER_is_fresh(emu->loom, sizeof(struct loom)))
-#ifdef C19_DBG_LIVE
-/* [F-C19-2] carve-out: OHC is not sent to any size check, and with -d its three u32
- * arguments are read for the debug message */
-#ifndef C19_FINDING_OHC
-__CPROVER_requires(!(is_debug_enabled && emu->ev->c == 'H' && emu->ev->v == 'C' && emu->ev->payload_size < 12))
-#endif
-#endif
+/* [F-C19-2, repaired] OHC is accepted only with its declared 12-byte payload; with -d its
+ * three u32 arguments are read for the debug message (regression obligation: ensures below) */
 __CPROVER_requires(WBIND(model_ovni_event, w_c == emu->ev->c && w_v == emu->ev->v && w_psize == emu->ev->payload_size &&
 	w_is_jumbo == (unsigned) emu->ev->is_jumbo &&
 	(emu->ev->payload_size < 8 || (w_i32_0 == PL_I32(emu->ev, 0) && w_i32_1 == PL_I32(emu->ev, 1)))))
 __CPROVER_assigns(GHOSTS, DIAG_FRAME, OTH(emu)->flush_start)
 __CPROVER_ensures(__CPROVER_return_value == 0 || __CPROVER_return_value == -1)
+__CPROVER_ensures(!(emu->ev->c == 'H' && emu->ev->v == 'C' && __CPROVER_return_value == 0) || emu->ev->payload_size == 12)
 /* a CPU index taken from the event is the i32 at payload bytes 0..3 and the handler
  * saw at least 4 payload bytes first */
 __CPROVER_ensures(g_cpu_calls == 0 || (g_cpu_calls == 1 && emu->ev->payload_size >= 4 && g_cpu_index == PL_I32(emu->ev, 0)))
@@ -135,7 +131,8 @@ void h_model_ovni_event(void)
 	if (r == 0 && w_c == 'A' && w_v == 's') REACH("OAs accepted");
 	if (r == 0 && w_c == 'A' && w_v == 'r') REACH("OAr accepted");
 	if (r != 0 && w_c == 'A' && w_v == 'r' && w_psize == 4) REACH("OAr with 4 bytes refused");
-	if (r == 0 && w_c == 'H' && w_v == 'C' && w_psize == 0) REACH("OHC without payload accepted");
+	if (r != 0 && w_c == 'H' && w_v == 'C' && w_psize == 0) REACH("OHC without payload refused");
+	if (r == 0 && w_c == 'H' && w_v == 'C') REACH("OHC with 12 bytes accepted");
 	if (r == 0 && w_c == 'F') REACH("flush accepted");
 	if (r == 0 && w_c == 'M') REACH("mark dispatched");
 	if (r == 0 && w_c == 'U' && w_is_jumbo) REACH("jumbo sorting event ignored");
